@@ -47,6 +47,7 @@ def _worker_init():
 
 def _worker_run(args):
     pid, task, seed = args
+    t_start = _real_monotonic()
     if _INIT_ERROR is not None:
         r = new_result()
         r["error"] = _INIT_ERROR
@@ -55,6 +56,8 @@ def _worker_run(args):
         mod = prop_module(pid)
         res = mod.run_task(task, seed)
         res["error"] = None
+        res["fam"] = {task.get("family", "?"): [res["execs"] + res.get("extra_runs", 0),
+                                                 _real_monotonic() - t_start]}
         return res
     except BaseException as e:  # noqa: BLE001
         r = new_result()
@@ -190,6 +193,14 @@ def check(pid, tier, seed, workers=None, out=sys.stdout):
     os.makedirs(EVID, exist_ok=True)
     with open(os.path.join(EVID, f"{pid}.json"), "w") as f:
         json.dump(evidence, f, indent=1)
+    fam = total.get("fam", {})
+    evidence["coverage"]["families"] = {k: {"executions": v[0], "cpu_s": round(v[1], 1)}
+                                        for k, v in sorted(fam.items())}
+    with open(os.path.join(EVID, f"{pid}.json"), "w") as f:
+        json.dump(evidence, f, indent=1)
+    if os.environ.get("VERIF_VERBOSE"):
+        for k, v in sorted(fam.items(), key=lambda kv: -kv[1][1]):
+            print(f"   family {k}: executions={v[0]} cpu={v[1]:.1f}s", file=out)
     print(f"{pid} tier={tier} seed={seed} tasks={len(tasks)} executions={total['execs']} "
           f"(+{total['extra_runs']} differential) states={total['states']} "
           f"transitions={total['transitions']} outcomes={len(total['outcomes'])} "
